@@ -1,3 +1,239 @@
-Require Import KV.CrossWindow.Model KV.CrossWindow.Spec.
-Theorem C12_stub : True. Proof. exact I. Qed.
-Print Assumptions C12_stub.
+(* C12 - Incremental cross-window reasoning equals recomputation from scratch.
+   Only the property theorems; each is closed by `exact <lemma>` and followed by Print Assumptions.
+   Definitions: Model.v (the executable model of the Rust code), Spec.v (Der, is_E, E_state and the
+   boolean predicates of the property's quantifier). *)
+Require Import List NArith Bool.
+Import ListNotations.
+Require Import KV.CrossWindow.Model KV.CrossWindow.Spec KV.CrossWindow.RoundProofs KV.CrossWindow.StepProofs
+        KV.CrossWindow.SdsProofs KV.CrossWindow.Tree KV.CrossWindow.Termination KV.CrossWindow.Final KV.CrossWindow.Boundary
+        KV.CrossWindow.SpecProofs KV.CrossWindow.RouteProofs.
+Open Scope N_scope.
+
+(* (1) The semiring fixpoint theorem at the expiry instance (max, min): for every positive safe rule
+   set and every base of alive facts (positive u64 expiries, no triple listed with two expiries),
+   whenever the from-scratch evaluation (provenance semi-naive with in-place tag updates and
+   re-triggering of improved facts) returns, the entry it keeps for a fact f is exactly
+   E f = the largest t such that f has a derivation all of whose leaves expire at t or later,
+   i.e. the maximum over the derivations of f of the minimum over its leaves of the base expiry;
+   and every derivable fact of a component has an entry. *)
+Theorem C12_fixpoint :
+  forall (fuel : nat) (P : list rule) (rt : N -> option N) (base : list (triple * N)) (st : state),
+    wf_rules P = true ->
+    (forall f e, In (f, e) base -> 0 < e /\ e <= INF) ->
+    functional_base base ->
+    scratch_core fuel P rt base = Some st ->
+    forall c f e, In (c, f, e) st <-> (rt (tpred f) = Some c /\ is_E P base f e).
+Proof. exact fixpoint_thm. Qed.
+Print Assumptions C12_fixpoint.
+
+(* (2) One incremental step, at the level of alive facts: if the carried-over state is E over the
+   previous alive facts (restricted to component facts beyond the previous time), and the new alive
+   facts are consistent with the previous ones (facts stay listed until they expire, a re-arrival
+   never shortens an expiry, static facts are the same), then the incremental evaluation, whenever
+   it returns, is E over the new alive facts restricted to component facts beyond the new time. *)
+Theorem C12_step_base :
+  forall (fuel : nat) (P : list rule) (rt rt' : N -> option N) (base base' : list (triple * N))
+         (old : state) (now now' : N) (st' : state),
+    wf_rules P = true -> routed_rules rt P = true ->
+    now <= now' -> now' < INF ->
+    (forall f e, In (f, e) base -> e <= INF) ->
+    alive_base base' now' -> functional_base base' ->
+    base_consistent base base' now' -> static_stable base base' ->
+    E_state P base rt now old ->
+    incr_core fuel P rt' base' old now' = Some st' ->
+    E_state P base' rt' now' st'.
+Proof. exact step_base. Qed.
+Print Assumptions C12_step_base.
+
+(* the same step on streaming datasets, with the boolean predicates of the quantifier text *)
+Theorem C12_step :
+  forall (fuel : nat) (P : list rule) (S S' : sds) (old : state) (now now' : N) (st' : state),
+    wf_rules P = true -> routed_rules (route S) P = true ->
+    now < now' -> sds_ok S' now' = true -> window_consistent S S' now' = true ->
+    E_state P (translate S now) (route S) now old ->
+    incremental fuel P S' old now' = Some st' ->
+    E_state P (translate S' now') (route S') now' st'.
+Proof. exact step_thm. Qed.
+Print Assumptions C12_step.
+
+(* the first evaluation of a history (empty carried-over state) *)
+Theorem C12_first :
+  forall (fuel : nat) (P : list rule) (S : sds) (now : N) (st : state),
+    wf_rules P = true -> sds_ok S now = true ->
+    incremental fuel P S [] now = Some st ->
+    E_state P (translate S now) (route S) now st.
+Proof. exact first_thm. Qed.
+Print Assumptions C12_first.
+
+(* the model of naive_sds_plus yields, per component, exactly the facts derivable from the alive facts *)
+Theorem C12_naive :
+  forall (fuel : nat) (P : list rule) (S : sds) (now : N) (l : list (N * triple)),
+    wf_rules P = true -> naive fuel P S now = Some l ->
+    forall c f, In (c, f) l <-> (route S (tpred f) = Some c /\ derivable P (translate S now) f).
+Proof. exact naive_thm. Qed.
+Print Assumptions C12_naive.
+
+(* (3) Every window-consistent history, every increasing sequence of evaluation times: at every
+   evaluation the incrementally maintained state is E over the currently alive facts (each kept
+   expiry is the latest time until which some derivation stays fully supported) and its facts are,
+   per component, exactly those of from-scratch reasoning. *)
+Theorem C12_history :
+  forall (fuel : nat) (P : list rule) (steps : list (sds * N)) (outs : list state),
+    wf_rules P = true ->
+    history_ok P None steps = true ->
+    run_history fuel P [] steps = Some outs ->
+    Forall2 (step_ok fuel P) steps outs.
+Proof. exact history_thm. Qed.
+Print Assumptions C12_history.
+
+(* E_state, read as an equivalence *)
+Theorem C12_E_state_iff :
+  forall P base rt now st, E_state P base rt now st ->
+  forall c f e, In (c, f, e) st <-> (rt (tpred f) = Some c /\ now < e /\ is_E P base f e).
+Proof. exact E_state_iff. Qed.
+Print Assumptions C12_E_state_iff.
+
+(* E f is literally "the maximum over the derivation trees of f of the minimum over their leaves of the
+   base expiry" (Tree.v: `tree`, `valid`, `root`, `value` = min over `leaves`). *)
+Theorem C12_E_is_max_min :
+  forall (P : list rule) (base : list (triple * N)) (f : triple) (e : N),
+    wf_rules P = true -> (forall g x, In (g, x) base -> x <= INF) ->
+    (is_E P base f e <->
+     ((exists tr, valid P base tr /\ root tr = f /\ value tr = e) /\
+      (forall tr, valid P base tr -> root tr = f -> value tr <= e))).
+Proof. exact is_E_max_min. Qed.
+Print Assumptions C12_E_is_max_min.
+
+(* Fuel bound for (1): the from-scratch evaluation returns as soon as the fuel reaches
+   fuel_bound = 1 + |constants|^3-many triples * (1 + number of expiry values + 1)  (Termination.v). *)
+Theorem C12_fixpoint_terminates :
+  forall (fuel : nat) (P : list rule) (rt : N -> option N) (base : list (triple * N)),
+    wf_rules P = true ->
+    (forall f e, In (f, e) base -> 0 < e /\ e <= INF) ->
+    functional_base base ->
+    (fuel_bound P base [] 0 <= fuel)%nat ->
+    exists st, scratch_core fuel P rt base = Some st.
+Proof. exact scratch_terminates. Qed.
+Print Assumptions C12_fixpoint_terminates.
+
+(* the incremental step returns under the hypotheses of C12_step once the fuel reaches the bound *)
+Theorem C12_step_terminates :
+  forall (fuel : nat) (P : list rule) (S S' : sds) (old : state) (now now' : N),
+    wf_rules P = true -> routed_rules (route S) P = true ->
+    now < now' -> sds_ok S' now' = true -> window_consistent S S' now' = true ->
+    E_state P (translate S now) (route S) now old ->
+    (fuel_bound P (translate S' now') old now' <= fuel)%nat ->
+    exists st', incremental fuel P S' old now' = Some st'.
+Proof. exact step_terminates. Qed.
+Print Assumptions C12_step_terminates.
+
+(* every admissible history is evaluated to the end with enough fuel (so C12_history is not vacuous
+   for any history: the model of the unbounded Rust loop terminates on all of them) *)
+Theorem C12_history_total :
+  forall (P : list rule) (steps : list (sds * N)),
+    wf_rules P = true -> history_ok P None steps = true ->
+    exists fuel0, forall fuel, (fuel0 <= fuel)%nat -> exists outs, run_history fuel P [] steps = Some outs.
+Proof. exact history_total. Qed.
+Print Assumptions C12_history_total.
+
+(* the executable oracle of Spec.v (used by the check on every case) computes E *)
+Theorem C12_spec_oracle :
+  forall (P : list rule) (base : list (triple * N)),
+    wf_rules P = true ->
+    (forall f e, In (f, e) base -> 0 < e) -> (forall f e, In (f, e) base -> e <= INF) ->
+    forall (fuel : nat) (M : list (triple * N)),
+      spec_E fuel P base = Some M -> forall f e, alookup M f = Some e <-> is_E P base f e.
+Proof. exact spec_E_correct. Qed.
+Print Assumptions C12_spec_oracle.
+
+(* stretch: routing picks the longest component IRI that is a prefix of the annotated predicate, and
+   the stand-in for the dictionary is injective on byte strings *)
+Theorem C12_route_longest :
+  forall (S : sds) (p : N),
+    let comps := map (fun w : window => fst (fst w)) (windows S) ++ map fst (statics S) ++ outputs S in
+    match route S p with
+    | Some c => exists i, c = enc i /\ In i comps /\ is_prefix i (dec p) = true /\
+                          forall j, In j comps -> is_prefix j (dec p) = true -> (length j <= length i)%nat
+    | None => forall j, In j comps -> is_prefix j (dec p) = false
+    end.
+Proof. exact route_longest. Qed.
+Print Assumptions C12_route_longest.
+
+Theorem C12_enc_injective :
+  forall s s' : str, bytes s -> bytes s' -> enc s = enc s' -> s = s'.
+Proof. exact enc_injective. Qed.
+Print Assumptions C12_enc_injective.
+
+(* ---- the hypotheses are needed (counterexamples on the faithful model, replayed on the code) ------------ *)
+(* two components list the same annotated triple (IRI-prefix collision): the kept expiry is the finite one *)
+Theorem C12_collision_refuted :
+  exists (S : sds) (now : N) (st : state),
+    (now <? INF) && no_overflow S = true /\
+    functional_b (translate S now) = false /\
+    incremental 50 [] S [] now = Some st /\
+    ~ E_state [] (translate S now) (route S) now st.
+Proof. exact collision_refuted. Qed.
+Print Assumptions C12_collision_refuted.
+
+(* a static graph that changes along the history *)
+Theorem C12_static_change_refuted :
+  exists (P : list rule) (S S' : sds) (now now' : N) (old st' : state),
+    wf_rules P = true /\ routed_rules (route S) P = true /\ now < now' /\ sds_ok S' now' = true /\
+    window_consistent S S' now' = false /\
+    incremental 50 P S [] now = Some old /\
+    incremental 50 P S' old now' = Some st' /\
+    ~ E_state P (translate S' now') (route S') now' st'.
+Proof. exact static_change_refuted. Qed.
+Print Assumptions C12_static_change_refuted.
+
+(* a rule that concludes a predicate of no component (outside "rule sets over window-annotated predicates") *)
+Theorem C12_unrouted_refuted :
+  exists (P : list rule) (S S' : sds) (now now' : N) (old st' : state),
+    wf_rules P = true /\ routed_rules (route S) P = false /\ now < now' /\ sds_ok S' now' = true /\
+    window_consistent S S' now' = true /\
+    incremental 50 P S [] now = Some old /\
+    incremental 50 P S' old now' = Some st' /\
+    ~ E_state P (translate S' now') (route S') now' st'.
+Proof. exact unrouted_refuted. Qed.
+Print Assumptions C12_unrouted_refuted.
+
+(* ---- non-vacuity: a concrete window-consistent history that satisfies every hypothesis ------------- *)
+Module Example1.
+  Definition s_w := [119; 47].   (* "w/" *)
+  Definition s_v := [118; 47].   (* "v/" *)
+  Definition s_g := [103; 47].   (* "g/" *)
+  Definition s_o := [111; 47].   (* "o/" *)
+  Definition s_p := [112].  Definition s_q := [113].
+  Definition s_a := [97].  Definition s_b := [98].  Definition s_c := [99].  Definition s_d := [100].
+  Definition wp := annotate s_w s_p.  Definition vq := annotate s_v s_q.
+  Definition op := annotate s_o s_p.  Definition gq := annotate s_g s_q.
+  (* { ?x w:p ?y . ?y v:q ?z } => { ?x o:p ?z } ;  { ?x o:p ?y . ?y w:p ?z } => { ?x o:p ?z } (recursive);
+     { ?x g:q ?y . ?x w:p ?z } => { ?z w:p ?x }  (derived facts land in a window component) *)
+  Definition P : list rule :=
+    [ mkRule [(V 0, C wp, V 1); (V 1, C vq, V 2)] [(V 0, C op, V 2)];
+      mkRule [(V 0, C op, V 1); (V 1, C wp, V 2)] [(V 0, C op, V 2)];
+      mkRule [(V 0, C gq, V 1); (V 0, C wp, V 2)] [(V 2, C wp, V 0)] ].
+  Definition G : list sgraph := [(s_g, [(s_a, s_q, s_a)])].
+  Definition mk (w v : list wtriple) : sds := mkSds [(s_w, 5, w); (s_v, 3, v)] G [s_o].
+  Definition steps : list (sds * N) :=
+    [ (mk [(s_a, s_p, s_b, 1)] [(s_b, s_q, s_c, 2)], 2);
+      (mk [(s_a, s_p, s_b, 3); (s_c, s_p, s_d, 3)] [(s_b, s_q, s_c, 2)], 4);      (* renewal of a/p/b, new c/p/d *)
+      (mk [(s_a, s_p, s_b, 3); (s_c, s_p, s_d, 3)] [(s_b, s_q, s_c, 2)], 5);      (* b/q/c expired, still listed *)
+      (mk [(s_c, s_p, s_d, 3); (s_a, s_p, s_b, 3)] [], 7) ].
+
+  Example hypotheses_hold : wf_rules P = true /\ history_ok P None steps = true.
+  Proof. vm_compute. split; reflexivity. Qed.
+
+  (* sizes of the four states, and the expiry kept for (a o:p d) at the second evaluation:
+     min(8 [a/p/b renewed], 5 [b/q/c], 8 [c/p/d]) = 5 *)
+  Example runs :
+    match run_history 50 P [] steps with
+    | Some outs => map (fun st : state => N.of_nat (length st)) outs
+    | None => []
+    end = [5; 7; 4; 4] /\
+    match run_history 50 P [] steps with
+    | Some (_ :: st2 :: _) => map (fun x : N * triple * N => snd x) (filter (fun x : N * triple * N => triple_eqb (snd (fst x)) (enc s_a, op, enc s_d)) st2)
+    | _ => []
+    end = [5].
+  Proof. vm_compute. split; reflexivity. Qed.
+End Example1.
